@@ -1048,7 +1048,7 @@ func (sr *storeRun) judge(calls [][]*call, initial map[int]bool) {
 				// a blob only its owner writes, one call at a time: no write-write race can explain it
 				class = "nonlinearizable-own-blob"
 			}
-			res.viol(class+"/"+sr.label+"/"+racePair(min, ops)+"/"+anomalyClass(min),
+			res.viol(class+"/"+sr.label+"/"+pairClass(min, ops)+"/"+anomalyClass(min),
 				fmt.Sprintf("[%s] the history of blob %s (%d operations, %d after minimisation; unexplained reads: "+readKinds(min)+") has no linearization against the {absent,present} register; minimal witness (times are ticks of one global counter; 'init' = blob pre-loaded):\n  %s",
 					sr.job.Spec, short(sr.keys[k].Ref), len(ops), len(min), strings.Join(lines, "\n  ")),
 				map[string]any{"case_id": sr.job.ID, "job": sr.job, "blob": sr.keys[k].Ref.String(), "blob_size": len(sr.keys[k].Data), "minimal_history": min, "full_history_ops": len(ops)})
